@@ -71,11 +71,16 @@ def _match_value(pat, val):
     return pat == val
 
 
+def _class_match(entry, cls):
+    c = entry.get("class")
+    return cls in c if isinstance(c, list) else c == cls
+
+
 def finding_for(violation: dict, findings: list):
     for e in findings:
         if e.get("status") != "open":
             continue
-        if e.get("class") != violation.get("class"):
+        if not _class_match(e, violation.get("class")):
             continue
         key = violation.get("key", {})
         if all(_match_value(p, key.get(k)) for k, p in e["match"].items()):
@@ -111,7 +116,7 @@ def _worker_chunk(args):
     mod = load_prop(pid)
     agg = {"n": 0, "digests": set(), "nontrivial": set(), "faults": {}, "probes": {}, "sim_s": 0.0,
            "violations": [], "harness": [], "samples": [], "states": set(), "fault_free": 0,
-           "by_index": {}, "families": {}}
+           "by_index": {}, "families": {}, "sig_counts": {}}
     for i in range(start, stop):
         seed = _rng.run_seed(master_seed, pid, i)
         try:
@@ -150,7 +155,10 @@ def _worker_chunk(args):
         if len(agg["samples"]) < 1 and res.get("nontrivial"):
             agg["samples"].append(sc)
         for v in res.get("violations", []):
-            if len(agg["violations"]) < 40:
+            sig = v.get("class", "") + "|" + json.dumps(v.get("key", {}), sort_keys=True)
+            agg["sig_counts"][sig] = agg["sig_counts"].get(sig, 0) + 1
+            # keep a few witnesses per signature; all occurrences are counted
+            if agg["sig_counts"][sig] <= 2 and len(agg["violations"]) < 60:
                 agg["violations"].append({"index": i, "seed": seed, "scenario": sc, "violation": v})
     return agg
 
@@ -319,7 +327,7 @@ def run_batch(pid, master_seed, tier, n_runs, budget_s, jobs, want_digests=False
     t0 = REAL_PERF()
     total = {"n": 0, "digests": set(), "nontrivial": set(), "faults": {}, "probes": {}, "sim_s": 0.0,
              "violations": [], "harness": [], "samples": [], "states": set(), "fault_free": 0,
-             "by_index": {}, "families": {}, "planned": n_runs}
+             "by_index": {}, "families": {}, "planned": n_runs, "sig_counts": {}}
     next_start = 0
     pending = set()
     with _pool(jobs) as ex:
@@ -356,14 +364,15 @@ def run_batch(pid, master_seed, tier, n_runs, budget_s, jobs, want_digests=False
                     total["probes"][k] = total["probes"].get(k, 0) + v
                 for k, v in a["families"].items():
                     total["families"][k] = total["families"].get(k, 0) + v
-                total["violations"].extend(a["violations"])
+                for k, v in a["sig_counts"].items():
+                    total["sig_counts"][k] = total["sig_counts"].get(k, 0) + v
+                if len(total["violations"]) < 3000:
+                    total["violations"].extend(a["violations"])
                 total["harness"].extend(a["harness"])
                 total["by_index"].update(a["by_index"])
                 if len(total["samples"]) < 3:
                     total["samples"].extend(a["samples"][: 3 - len(total["samples"])])
             if total["harness"] and len(total["harness"]) > 20:
-                break
-            if len(total["violations"]) > 200:
                 break
             submit()
     total["wall_s"] = REAL_PERF() - t0
@@ -453,7 +462,7 @@ def check(pid, tier, seed, jobs, budget_s=None, n_runs=None):
         if herr:
             print(f"HARNESS-ERROR directed replay {rp}:\n{herr}")
             return 2
-        hit = [v for v in res.get("violations", []) if v["class"] == e["class"]]
+        hit = [v for v in res.get("violations", []) if _class_match(e, v["class"])]
         if e["status"] == "open":
             if hit:
                 print(f"KNOWN-FINDING: property={pid} {e['what']} (replay={rp})")
@@ -485,19 +494,22 @@ def check(pid, tier, seed, jobs, budget_s=None, n_runs=None):
         return 2
 
     by_class: dict[str, list] = {}
+    counted = set()
     for item in total["violations"]:
         e = finding_for(item["violation"], findings)
-        if e is not None:
-            k = e.get("id", e["class"])
-            known_hit[k] = known_hit.get(k, 0) + 1
-            continue
         sig = item["violation"]["class"] + "|" + json.dumps(item["violation"].get("key", {}), sort_keys=True)
+        if e is not None:
+            k = e.get("id") or str(e["class"])
+            if sig not in counted:
+                counted.add(sig)
+                known_hit[k] = known_hit.get(k, 0) + total["sig_counts"].get(sig, 1)
+            continue
         by_class.setdefault(sig, []).append(item)
 
     for sig, items in sorted(by_class.items())[:8]:
         item = min(items, key=lambda it: len(json.dumps(it["scenario"], default=_json_default)))
         v = item["violation"]
-        new_violations += len(items)
+        new_violations += total["sig_counts"].get(sig, len(items))
         exit_code = 1
         try:
             minimized, execs = shrink(mod, item["scenario"], v["class"], vkey=v.get("key", {}),
@@ -505,7 +517,7 @@ def check(pid, tier, seed, jobs, budget_s=None, n_runs=None):
         except Exception:
             minimized, execs = item["scenario"], 0
         path = write_replay(pid, item, minimized)
-        print(f"  class={v['class']} key={json.dumps(v.get('key', {}), sort_keys=True)} occurrences={len(items)} "
+        print(f"  class={v['class']} key={json.dumps(v.get('key', {}), sort_keys=True)} occurrences={total['sig_counts'].get(sig, len(items))} "
               f"seed={item['seed']} index={item['index']} shrink_execs={execs}\n    {v.get('msg', '')}")
         print(f"VIOLATION property={pid} replay={path}")
     if len(by_class) > 8:
